@@ -639,7 +639,7 @@ func c15Saturation(p *Prog, r *Report, rule string) {
 // ---------------------------------------------------------------- history independence
 
 func c15History(p *Prog, r *Report, rule string) {
-	r.Rule(rule, "history independence of the moving groundwater table: backups are written only by the input routine, from the final unsaturated parameters; when the level changes every layer 0..N−1 of all four parameter arrays is rewritten from the backups (or recomputed from the texture table exactly as the input routine does) before the saturation routine, which is the only other writer of field capacity on the run path", 8)
+	r.Rule(rule, "history independence of the moving groundwater table: backups are written only by the input routine, from the final unsaturated parameters; when the level changes every layer 0..N−1 of all four parameter arrays is rewritten from the backups (or recomputed from the texture table exactly as the input routine does) before the saturation routine, which is the only other writer of field capacity on the run path; the start state is saturated relative to the start level; the table row is read on every call", 10)
 	fx := p.Fields()
 	for _, f := range []string{"W_Backup", "WMIN_Backup", "PORGES_Backup", "WNOR_Backup"} {
 		for _, w := range fx.Writers(FieldRef{"GlobalVarsMain", f}) {
@@ -647,6 +647,69 @@ func c15History(p *Prog, r *Report, rule string) {
 				continue
 			}
 			r.Ob("backup-writer:"+f+":"+strings.TrimPrefix(w.Key, "hermes."), p.Pos(w.Decl.Pos()), w.Key == "hermes.Input", "backups may only be written by the input routine")
+		}
+	}
+	// start state: after Init has placed the table (its last store to the level), the saturation routine is applied,
+	// unconditionally — the input routine saturated relative to the level of the soil/polygon/series file, which for a
+	// series is the first record and not the level of the start day
+	if ix := walked(p, "hermes.Init"); ix != nil {
+		lastGRW := -1
+		for _, e := range ix.Events {
+			if e.Kind == "assign" && e.Root == "GlobalVarsMain.GRW" && e.Seq > lastGRW {
+				lastGRW = e.Seq
+			}
+		}
+		okS, pos := false, "-"
+		for _, e := range ix.Events {
+			nonLoop := 0
+			for _, g := range flattenGuards(e.Guards) {
+				if !g.Loop {
+					nonLoop++
+				}
+			}
+			if e.Kind == "call" && e.Name == "hermes.setFieldCapacityWithGW" && e.Seq > lastGRW && len(e.Loops) == 0 && nonLoop == 0 {
+				okS, pos = true, p.Pos(e.Pos)
+			}
+		}
+		r.Ob("start:saturation", pos, okS, fmt.Sprintf("Init applies the saturation routine unconditionally after it has set the start level: %v", okS))
+	}
+	// the texture-table route reads its row on every call: the loop that assigns the table values is entered
+	// unconditionally (some parameters are afterwards corrected in place, e.g. pore volume += humus term: a call
+	// that skips the lookup corrects the already corrected value of the previous call)
+	if hfi := p.Funcs["hermes.Hydro"]; hfi != nil {
+		hinfo := hfi.Pkg.TypesInfo
+		var loop *ast.ForStmt
+		ast.Inspect(hfi.Decl.Body, func(n ast.Node) bool {
+			f, ok := n.(*ast.ForStmt)
+			if !ok || loop != nil {
+				return true
+			}
+			has := false
+			ast.Inspect(f.Body, func(m ast.Node) bool {
+				if as, ok := m.(*ast.AssignStmt); ok && len(as.Lhs) == 1 && fieldOf(hinfo, as.Lhs[0]) == "PRGES" {
+					has = true
+				}
+				return true
+			})
+			if has {
+				loop = f
+			}
+			return true
+		})
+		if loop == nil {
+			r.Ob("table-lookup:every-call", p.Pos(hfi.Decl.Pos()), false, "the loop that reads the texture table row was not found in Hydro")
+		} else {
+			conds, loops := astPathConds(hinfo, hfi.Decl.Body, loop)
+			ok := loop.Cond == nil && len(conds) == 0 && len(loops) == 0
+			det := "for { … } reached unconditionally"
+			if !ok {
+				c := "-"
+				if loop.Cond != nil {
+					c = types.ExprString(loop.Cond)
+				}
+				det = fmt.Sprintf("loop condition %s, enclosing conditions [%s]", c, joinConds(conds))
+			}
+			r.Ob("table-lookup:every-call", p.Pos(loop.Pos()), ok, "the texture-table row is looked up on every call of the routine: "+det)
 		}
 	}
 	// the route flag that selects "recompute from the table" or "restore from the backups" describes the whole
